@@ -489,7 +489,8 @@ func sleepFunc(c ugo.Call) (ugo.Object, error) {
 		}
 		dur -= 10 * time.Millisecond
 		time.Sleep(10 * time.Millisecond)
-		if c.VM().Aborted() {
+		// a call without a VM (ugo.NewCall(nil, ...)) cannot be aborted
+		if vm := c.VM(); vm != nil && vm.Aborted() {
 			return ugo.Undefined, ugo.ErrVMAborted
 		}
 	}
